@@ -4,8 +4,9 @@ from .. import vlib
 
 TRUSTED = [
     "Lean 4.33 kernel; axioms per theorem listed under coverage.axioms (subset of propext, Classical.choice, Quot.sound)",
-    "harness/action.cpp (reads Action::AST / ASTNode through their public serializeOp; sends raw token strings with the get_func code; the real strtod value travels too but is used for nan(chars) only) + lib/vlib.py differ; model driver (compiled Lean)",
-    "modelled, not verified: get_func (summary keyword categories), the payload of nan(chars), [:class:]/[=c=]/[.c.] in fnmatch brackets, SummaryState storage; Model/Strtod.lean (C07's strtod model) is reused for the value of decimal tokens; State::load_rst and dequote have no direct correspondence op",
+    "harness/action.cpp (reads Action::AST / ASTNode through their public serializeOp; sends raw token strings with the get_func code; the real strtod value travels too but is used for nan(chars) only; for the restart ops it fills the ZACN/IACN/SACN slots of ONE condition by hand the way AggregateActionxData.cpp does and reads them back through the real RstAction::Condition) + lib/vlib.py differ; model driver (compiled Lean)",
+    "modelled, not verified: get_func (summary keyword categories), the payload of nan(chars), [:class:]/[=c=]/[.c.] in fnmatch brackets, SummaryState storage; Model/Strtod.lean (C07's strtod model) is reused for the value of decimal tokens; State::load_rst and dequote have no direct correspondence op; the restart WRITER (AggregateActionxData.cpp: which slot holds what, PaddedOutputString<8> truncation) is not modelled — only format_double and RstAction::Condition::tokens()",
+    "the harness's own number grammar (ownNumberGrammar) and its own copy of the writer's rule 'constant = std::stod(token)' in property mode",
 ]
 
 
